@@ -1,0 +1,21 @@
+//go:build verif
+
+package coq
+
+// Contracts for the gvc verifier (/verif). Comment-only: this file adds no
+// code. Syntax: /verif/DESIGN.md §2.2.
+
+//@ props C07
+
+// The printer's indentation level and the operator of a BinaryExpr are
+// internal data-structure invariants (they never depend on the translated
+// program): assumed here, not checked at call sites; listed in the evidence.
+
+//@ func (buffer).indentation
+//@   trusted_requires [indentation level stays small and non-negative: Indent calls are balanced] 0 <= pp.indentLevel && pp.indentLevel < 0x100000
+//@   may_reject
+//@   noframe
+//@ func (BinaryExpr).Coq
+//@   trusted_requires [operators only come from the translator's operator tables] OpPlus <= be.Op && be.Op <= OpShr
+//@   may_reject
+//@   noframe
